@@ -1,4 +1,5 @@
 import Ccp.Proofs.Cli
+import Ccp.Model.CliNs
 import Ccp.Proofs.IPVal
 /-!
 # C18 — the command-line greps are order-preserving filters; `parent` / `child` / `branch` /
@@ -544,6 +545,57 @@ theorem cli_is_api_diff (A : Api) (f0 f1 : Str) (m syn : Str) :
 /-- **diff_honours_syntax** (after the repair of F48): the syntax handed to `Diff` is the `-s` value. -/
 theorem diff_honours_syntax (a : DiffArgs) : diffSyntaxPassed a = a.syn := rfl
 
+/-! ## the Namespace level: input source, `exclude_networks`, unknown command (model `Ccp.Model.CliNs`) -/
+
+/-- **The text may come from a file or from standard input — it is the same grep.** -/
+theorem grep_source_irrelevant (O : Oracle) (a : IpArgs) (m : MacArgs) (t : Str) :
+    ipgrepFrom O a false (.file t) = ipgrep O { a with text := t } ∧
+    ipgrepFrom O a false (.stdin t) = ipgrep O { a with text := t } ∧
+    macgrepFrom O m (.file t) = .ok (macgrep O { m with text := t }) ∧
+    macgrepFrom O m (.stdin t) = .ok (macgrep O { m with text := t }) :=
+  ⟨rfl, rfl, rfl, rfl⟩
+
+/-- without a FILE argument and with a terminal as standard input there is nothing to grep: both greps end with
+the argument parser's error (`SystemExit`), before any other option is looked at -/
+theorem grep_needs_input (O : Oracle) (a : IpArgs) (xn : Bool) (m : MacArgs) :
+    ipgrepFrom O a xn .ttyNoFile = .error .systemExit ∧ macgrepFrom O m .ttyNoFile = .error .systemExit :=
+  ⟨rfl, rfl⟩
+
+/-- `exclude_networks` (an attribute of the Namespace that no command-line option sets): with `false` this is
+`ipgrep`; with any value the word mode is `addrMatches` and the line mode `lineMatches` for `Opts` carrying that
+value — so `ipgrep_filter`, `ipgrep_unique`, `ipgrep_line_filter` (stated for every `Opts`) describe these runs too -/
+theorem ipgrepX_modes (O : Oracle) (a : IpArgs) (xn : Bool) (sub : Str) (subs : List Addr)
+    (h1 : effectiveSubnets a = .ok (some sub))
+    (h2 : (splitOn ',' sub).mapM (parseSubnet O) = .ok subs) :
+    ipgrepX O a false = ipgrep O a ∧
+    (a.line = false → ipgrepX O a xn = .ok (addrMatches O
+      ⟨a.showNetworks || a.showCidr, a.showNetworks, a.excludeHosts, xn, a.unique⟩ subs (O.split a.text))) ∧
+    (a.line = true → a.showCidr = false → a.showNetworks = false →
+      ipgrepX O a xn = .ok (lineMatches O ⟨false, false, a.excludeHosts, xn, a.unique⟩ subs (Diff.splitlines a.text))) := by
+  refine ⟨rfl, ?_, ?_⟩
+  · intro hl
+    unfold ipgrepX
+    simp only [h1, bind, Except.bind, h2, hl]
+    cases a.showNetworks <;> simp
+  · intro hl hc hn
+    unfold ipgrepX
+    simp only [h1, bind, Except.bind, h2, hl, hc, hn]
+    simp
+
+/-- what `exclude_networks` excludes: every hit that is not a host (/32 resp. /128) -/
+theorem netExcluded_spec (o : Opts) (a : Addr) (h : o.excludeNetworks = true) :
+    netExcluded o a = !(a.o.len == a.ver.hostLen) := by
+  unfold netExcluded
+  rw [h]
+  cases hv : a.ver
+  · by_cases hl : a.o.len = 32 <;> simp [Ver.hostLen, hl]
+  · by_cases hl : a.o.len = 128 <;> simp [Ver.hostLen, hl]
+
+/-- a Namespace whose `command` is none of the six sub-commands is refused with ValueError -/
+theorem other_command_rejected (name : Str) (h : name ∉ commands) : otherCommand name = some .valueError := by
+  unfold otherCommand
+  simp [h]
+
 /-! ## non-vacuity -/
 
 section Examples
@@ -604,6 +656,12 @@ example : macAddrMatches exO ["dead".toList] false
 example : macOf "dead.beef.0001.0002".toList = some (.eui64, 0xdeadbeef00010002) := by decide +kernel
 example : (splitStr "::".toList "a::b:c::".toList).toOption = some ["a".toList, "b:c".toList, []] := by
   decide +kernel
+
+-- `exclude_networks`: the /24 spelling is dropped, the host spellings stay (word mode, not unique)
+example : addrMatches exO ⟨false, false, false, true, false⟩ exSubs exWords
+    = ["10.0.0.1".toList, "10.0.0.1".toList] := by decide +kernel
+-- `other_command_rejected`: the hypothesis is satisfiable
+example : "frobnicate".toList ∉ commands := by decide
 
 end Examples
 
